@@ -9,6 +9,7 @@ import (
 	"sync"
 	"time"
 
+	"github.com/drand/drand/v2/common"
 	"github.com/drand/drand/v2/crypto"
 	"github.com/drand/drand/v2/zzverif/emit"
 	"github.com/drand/kyber/share"
@@ -75,7 +76,7 @@ func Run(outDir string, seed int64, tier string) error {
 		}
 		g.pools = append(g.pools, pl)
 	}
-	nSort, nSetup, nAs, nOrd := 250, 220, 420, 40
+	nSort, nSetup, nAs, nOrd := 300, 250, 500, 60
 	if thorough {
 		nSort, nSetup, nAs, nOrd = 4000, 3000, 6000, 600
 	}
@@ -137,7 +138,7 @@ func Run(outDir string, seed int64, tier string) error {
 		}
 	}
 	rep.Rule = "pure: SortedByPublicKey on byte-string keys (corpus of prefix/high-byte/empty/duplicate keys, small alphabets, real keys), setupDKG and asGroup through the verif hooks on generated DBStates (1..7 participants from seeded key pools of each scheme, random Remaining/Joining split, QUAL subsets ascending or shuffled, stored/empty seed, decoy previous group, malformed stream: garbage/truncated/foreign-group keys, unknown scheme, out-of-range QUAL index, no participants); real: dkg.Process networks (bolt stores, real kyber DKG) over an in-memory bus with random per-message delays, duplicates and one slow node, first DKG + one resharing (same/add/remove), one finished-state case per node; distinct = distinct case text; non-trivial = at least two distinct keys / participants / QUAL members (real runs: n >= 2)"
-	if err := rep.Shard(outDir, "cases_dkgrun", []string{"From DV Require Import Model.DKGExec Corr.DKGExecCorr."}, "dcase", "mismatches", lines, descr, 300); err != nil {
+	if err := shard(rep, outDir, "cases_dkgrun", []string{"From DV Require Import Model.DKGExec Corr.DKGExecCorr."}, lines, descr, 60); err != nil {
 		return err
 	}
 	return rep.Write(outDir)
@@ -173,6 +174,18 @@ func scenarios(rng *rand.Rand, thorough bool) []scenario {
 	slowAll := func(i int) schedule {
 		return schedule{Name: "slow-node", MaxDelay: 60 * time.Millisecond, DupProb: 0.1, SlowNode: i, SlowKind: "all", SlowDelay: 250 * time.Millisecond}
 	}
+	// one participant crashes at the start of the execution: QUAL is a proper subset and the
+	// positions in QUAL differ from the DKG indices
+	crash := func(n, t int, scheme string) scenario {
+		return scenario{Scheme: scheme, N: n, Thr: t, Period: 1000, Phase: 1500 * time.Millisecond,
+			Sched: schedule{Name: "crash", MaxDelay: 40 * time.Millisecond, SlowNode: -1, Crash: true}}
+	}
+	// replay witness: a duplicate of a response bundle of the previous ceremony is delivered to one
+	// node during the next one
+	staleReplay := scenario{Scheme: crypto.DefaultSchemeID, N: 3, Thr: 2, Period: 1000, Sched: none, Reshare: "same", Thr2: 2,
+		// Y = node 2 receives the leader's (node 0) response bundle 500 ms late
+		Sched2: schedule{Name: "slow-link", SlowNode: 2, SlowKind: "response", SlowDelay: 500 * time.Millisecond, SlowFrom: 0, SlowFromSet: true},
+		Phase:  1500 * time.Millisecond, Witness: witnessStale}
 	var scs []scenario
 	add := func(sc scenario) {
 		sc.BeaconID = []string{"default", "c06-net"}[len(scs)%2]
@@ -199,10 +212,16 @@ func scenarios(rng *rand.Rand, thorough bool) []scenario {
 	f15 := scenario{Scheme: crypto.DefaultSchemeID, N: 2, Thr: 2, Period: 1, GenesisIn: -100, Sched: none, Reshare: "same", Thr2: 2,
 		Sched2: schedule{Name: "late-responses", SlowNode: 1, SlowKind: "response", SlowDelay: 1300 * time.Millisecond}, Phase: 4 * time.Second}
 	if !thorough {
+		// n = 1..4 with every admissible threshold, two schemes, the three reshare shapes
 		add(scenario{Scheme: crypto.DefaultSchemeID, N: 3, Thr: 2, Period: 1000, Sched: jitter, Reshare: "add", Thr2: 3, Sched2: slowAll(1)})
 		add(scenario{Scheme: crypto.SigsOnG1ID, N: 4, Thr: 3, Period: 600, Sched: slowAll(2), Reshare: "remove", Thr2: 2, Sched2: jitter})
 		add(f15)
 		add(scenario{Scheme: crypto.SigsOnG1ID, N: 1, Thr: 1, Period: 30, GenesisIn: 20, Sched: none})
+		add(scenario{Scheme: crypto.SigsOnG1ID, N: 2, Thr: 2, Period: 3000, Sched: jitter, Reshare: "add", Thr2: 2, Sched2: jitter})
+		add(scenario{Scheme: crypto.DefaultSchemeID, N: 3, Thr: 3, Period: 1000, Sched: slowAll(0), Reshare: "same", Thr2: 2, Sched2: slowAll(2)})
+		add(scenario{Scheme: crypto.DefaultSchemeID, N: 4, Thr: 4, Period: 600, Sched: jitter, Reshare: "same", Thr2: 3, Sched2: slowAll(1)})
+		add(crash(4, 3, crypto.SigsOnG1ID))
+		add(staleReplay)
 		return scs
 	}
 	schemes := crypto.ListSchemes()
@@ -244,6 +263,10 @@ func scenarios(rng *rand.Rand, thorough bool) []scenario {
 		add(scenario{Scheme: s, N: 3, Thr: 2, Period: 1000, Sched: jitter, Reshare: []string{"add", "remove", "same"}[i%3], Thr2: []int{3, 2, 3}[i%3], Sched2: slowAll(i % 3)})
 	}
 	add(f15)
+	add(crash(4, 3, crypto.DefaultSchemeID))
+	add(crash(5, 3, crypto.SigsOnG1ID))
+	add(crash(7, 4, crypto.UnchainedSchemeID))
+	add(staleReplay)
 	return scs
 }
 
@@ -260,6 +283,10 @@ func monitorEpoch(rep *emit.Report, sc scenario, eo *epochObs, g *pureGen) {
 	}
 	if len(obs) != eo.Expected {
 		rep.Fail("dkg-did-not-complete", "not every participant completed", ctx(nil))
+		return
+	}
+	if sc.Witness != "" && eo.Epoch == 2 {
+		witnessEpoch(rep, sc, eo)
 		return
 	}
 	rep.Evaluations++
@@ -288,10 +315,28 @@ func monitorEpoch(rep *emit.Report, sc scenario, eo *epochObs, g *pureGen) {
 			Input: map[string]interface{}{"scenario": sc, "epoch": eo.Epoch, "transition_times": tts, "period_s": sc.Period}}
 		// F15 is a candidate finding: it is recorded as a known witness and turned into a
 		// monitor failure only on request, until it is listed in known_findings.txt
-		rep.Known = append(rep.Known, mf)
-		if os.Getenv("VERIF_C06_F15") == "fail" {
-			rep.Fail(mf.Class, mf.What, mf.Input)
+		recordWitness(rep, mf)
+	}
+	// (1b) the transition time is the genesis time in the first epoch, else the start of the 10th
+	// round after some instant of the completion window (plain arithmetic, C16's functions)
+	for _, o := range obs {
+		okTT := false
+		if eo.Epoch == 1 {
+			okTT = o.Group.Transition == o.Group.GenesisTime
+		} else {
+			for t := o.T0; t <= o.T1; t++ {
+				per := time.Duration(o.Group.Period) * time.Second
+				if common.TimeOfRound(per, o.Group.GenesisTime, common.CurrentRound(t, per, o.Group.GenesisTime)+10) == o.Group.Transition {
+					okTT = true
+				}
+			}
 		}
+		if !okTT {
+			rep.Fail("transition-time-rule", "transition time is not genesis (epoch 1) / the start of the 10th round after completion", ctx(map[string]interface{}{"node": o.Node}))
+		}
+	}
+	if len(ref.Group.Nodes) < len(ref.State.Remaining)+len(ref.State.Joining) {
+		rep.Count("run/qual-proper-subset")
 	}
 	// (2) every node's share lies on the public polynomial of the group at its own index
 	for i := range obs {
@@ -364,14 +409,51 @@ func monitorEpoch(rep *emit.Report, sc scenario, eo *epochObs, g *pureGen) {
 				rep.Fail("seed-not-group-hash", "genesis seed of the first group is not the group hash", ctx(map[string]interface{}{"node": o.Node}))
 			}
 		}
+		// QUAL as the schedule implies it (not read off the group): the DKG indices, ascending, of
+		// the nodes that ran the protocol to the end, i.e. the ranks of their keys among the
+		// participants this node stored
 		var qual []int64
-		for _, nd := range o.Group.Nodes {
-			qual = append(qual, int64(nd.Index))
+		for _, c := range obs {
+			r := 0
+			for _, p := range append(append([]pPart{}, st.Remaining...), st.Joining...) {
+				if string(p.Key) < string(c.Key) {
+					r++
+				}
+			}
+			qual = append(qual, int64(r))
 		}
+		sortInts(qual)
 		line := fmt.Sprintf("DFinish %s %s %s %s %s %s %s %s %s", cStr(crypto.DefaultSchemeID), cState(st), cBytesList(o.Commits), cIdx(qual),
-			emit.Z(o.T0), emit.Z(o.T1), cHashIn(hin), emit.Bytes(hout), cGroup(o.Group))
+			emit.Z(o.T0), emit.Z(o.T1), cHashIn(hin), cB(hout), cGroup(o.Group))
 		d := fmt.Sprintf("DFinish scenario=%s epoch=%d node=%d index=%d n=%d t=%d window=[%d,%d] ttime=%d", sc.Name, eo.Epoch, o.Node, o.OwnIndex, n, t, o.T0, o.T1, o.Group.Transition)
 		g.add(line, d, "finish/epoch"+fmt.Sprint(eo.Epoch), line, n >= 2)
+	}
+}
+
+// witnessEpoch evaluates a replayed candidate finding: it is recorded as a known witness (and
+// as a monitor failure only when VERIF_C06_WITNESSES=fail) until it is listed in known_findings.txt.
+func witnessEpoch(rep *emit.Report, sc scenario, eo *epochObs) {
+	sizes := map[int]int{}
+	differ := false
+	for _, o := range eo.Nodes {
+		sizes[o.Node] = len(o.Group.Nodes)
+		if string(o.GroupHash) != string(eo.Nodes[0].GroupHash) {
+			differ = true
+		}
+	}
+	rep.Extra["witness/"+sc.Witness] = map[string]interface{}{"reproduced": differ, "group_sizes": sizes, "completed": len(eo.Nodes), "bus": eo.Stats}
+	if !differ {
+		return
+	}
+	mf := emit.MonitorFailure{Class: sc.Witness, What: "all participants complete the resharing, but the node that received a duplicate of a response bundle of the PREVIOUS ceremony before the sender's new response evicts that sender from QUAL and ends with a smaller group than the others (kyber's packet set treats the two bundles as equivocation before looking at the session id; the echo broadcast accepts bundles of an old session)",
+		Input: map[string]interface{}{"scenario": sc, "epoch": eo.Epoch, "group_sizes_by_node": sizes}}
+	recordWitness(rep, mf)
+}
+
+func recordWitness(rep *emit.Report, mf emit.MonitorFailure) {
+	rep.Known = append(rep.Known, mf)
+	if os.Getenv("VERIF_C06_WITNESSES") == "fail" {
+		rep.Fail(mf.Class, mf.What, mf.Input)
 	}
 }
 
